@@ -6,8 +6,7 @@
      p1 = item_path(current item) without its last segment   (the module the text is written into)
      p2 = item_path(target)                                   (module path ++ [item] or ++ [enum; variant])
    Both are lists of *unescaped* Symbols; the comparison p1[i] == p2[i] is on the unescaped names, the
-   segments are written through Symbol's Display -- except in the p1 == p2 branch, which returns the raw
-   last segment.  A module is emitted as `pub mod <display name>`.  No proofs here. *)
+   segments are written through Symbol's Display.  A module is emitted as `pub mod <display name>`.  No proofs here. *)
 From Coq Require Import String List Bool Arith.
 From PVBld Require Import Names.
 Import ListNotations.
@@ -31,16 +30,16 @@ Fixpoint common_prefix_len (a b : list string) : nat :=
 Fixpoint last_opt (l : list string) : option string :=
   match l with [] => None | [x] => Some x | _ :: r => last_opt r end.
 
-(* None = panic (p2.last().unwrap() on an empty slice) *)
+(* let mut i = <length of the common prefix>;
+   if i == p2.len() && i > 0 { i -= 1; }          -- repair of finding F-14d
+   (0..p1.len() - i) x `super`, then p2[i..] through Display.
+   Before the repair: `if p1 == p2 { return p2.last().unwrap().clone().0 }` (raw last segment, which names a child of the
+   current module, not the target) and no adjustment of i (a path made of `super`s only when p2 is a proper prefix of p1:
+   it names a module).  The function no longer panics; the option is kept for the callers' sake. *)
 Definition related_path (p1 p2 : list string) : option (list string) :=
-  if list_eqb p1 p2 then
-    match last_opt p2 with
-    | Some l => Some [l]                       (* p2.last().unwrap().clone().0 : NOT escaped *)
-    | None => None
-    end
-  else
-    let i := common_prefix_len p1 p2 in
-    Some (repeat "super" (length p1 - i) ++ map display (skipn i p2)).
+  let i0 := common_prefix_len p1 p2 in
+  let i := if (i0 =? length p2)%nat && (0 <? i0)%nat then i0 - 1 else i0 in
+  Some (repeat "super" (length p1 - i) ++ map display (skipn i p2)).
 
 (* WorkspacePathResolver: same crate (first segment) -> as above; otherwise an absolute path.
    None = panic (index 0 of an empty slice) *)
